@@ -76,7 +76,19 @@ def rewrite_harness(ctx, cfg):
         al = SymNum(ctx.real('argline%d' % i, integer=True), 'i')
         args.append(pp.ArgumentNode(an, pp.ExpressionNode(av, al), al))
     node = pp.CommandNode(rname, cmd, args, ln)
-    out = U.convert_eems2_commands([node])
+
+    def conc(mdl, label):
+        ev = lambda x: symx.model_value(mdl, x.e)        # noqa: E731
+        return {'kind': 'rewrite-reject', 'result_name': ev(rname) if rname is not None else None, 'command': ev(cmd),
+                'args': [[ev(a.name), ev(a.value.value)] for a in args]}
+    E = sys.modules['mpilot.exceptions']
+    try:
+        out = U.convert_eems2_commands([node])
+    except E.MPilotError as e:
+        # names are plain words here ([A-Za-z]*): nothing the conversion may refuse
+        lab = 'a command whose names and values are plain words is converted (%s)' % type(e).__name__
+        return {'outcome': 'rejected', 'obligations': [(lab, z3.BoolVal(False))], 'groups': {lab: 'rewrite-rejected'}, 'concretise': conc,
+                'replay': {'kind': 'rewrite', 'nargs': n}, 'validated': True}
     obs, groups = [], {}
 
     def ob(label, term, group):
@@ -213,8 +225,22 @@ def harness(ctx, cfg):
     return {'table': table_harness, 'rewrite': rewrite_harness, 'equiv': equiv_harness, 'version': version_harness}[cfg['kind']](ctx, cfg)
 
 
+def confirm(rec, label):
+    if rec.get('kind') != 'rewrite-reject':
+        return True, 'the explored path executed the real code on concrete structure'
+    U = sys.modules['mpilot.utils']
+    pp = sys.modules['mpilot.parser.parser']
+    E = sys.modules['mpilot.exceptions']
+    node = pp.CommandNode(rec['result_name'], rec['command'], [pp.ArgumentNode(a, pp.ExpressionNode(v, 1), 1) for a, v in rec['args']], 1)
+    try:
+        U.convert_eems2_commands([node])
+    except E.MPilotError as e:
+        return True, 'real convert_eems2_commands on %s(%s) -> %s: %s' % (rec['command'], rec['args'], type(e).__name__, str(e)[:120])
+    return False, 'real convert_eems2_commands accepts %s(%s)' % (rec['command'], rec['args'])
+
+
 def run_job(cfg, seed):
-    return P.run_struct_job(harness, cfg, PROP, seed, confirm=None, max_paths=cfg.get('max_paths', 20000))
+    return P.run_struct_job(harness, cfg, PROP, seed, confirm=confirm, max_paths=cfg.get('max_paths', 20000))
 
 
 def replay(rec):
@@ -223,6 +249,9 @@ def replay(rec):
         from mpilot.program import Program
         missing = [nm for libs, nm in ((CSV, 'CSV'), (NC, 'NetCDF')) if r['target'] not in Program(libraries=libs).command_library]
         return {'reproduced': bool(missing), 'why': '%s -> %s missing in %s' % (r['v2'], r['target'], missing)}
+    if r.get('kind') == 'rewrite-reject':
+        ok, why = confirm(r, rec.get('label'))
+        return {'reproduced': ok, 'why': why}
     return {'reproduced': True, 'why': 're-run the check: the explored path executed the real code'}
 
 
